@@ -1315,18 +1315,48 @@ def r_verb(ctx, floor_funcs=0):
                         monitors.add(d.name)
                         changed = True
         regions = []           # (if node, stmts)
+        handed = set()
+        pre_accounted = set()
+        # `m = M if verbose else None` (the binding an inlined helper leaves behind for an optional progress monitor): `m is not None`
+        # is the verbose test, m is the monitor
+        opt = set()
+        for d in f.defs:
+            if d.kind == 'assign' and isinstance(d.value, ast.IfExp) and not d.path and \
+                    len([x for x in f.defs if x.name == d.name and x.kind != 'param']) == 1 and d.name not in f.params:
+                t_, on_, off_ = d.value.test, d.value.body, d.value.orelse
+                if isinstance(t_, ast.UnaryOp) and isinstance(t_.op, ast.Not):
+                    t_, on_, off_ = t_.operand, d.value.orelse, d.value.body
+                if isinstance(t_, ast.Name) and t_.id in vnames and isinstance(on_, ast.Name) and on_.id in monitors and \
+                        isinstance(off_, ast.Constant) and off_.value is None:
+                    opt.add(d.name)
+                    pre_accounted.add(id(t_))
+                    handed.add(id(on_))
+
+        def _opt_test(t):
+            if isinstance(t, ast.Name) and t.id in opt:
+                return True
+            return isinstance(t, ast.Compare) and len(t.ops) == 1 and isinstance(t.ops[0], ast.IsNot) and isinstance(t.left, ast.Name) and \
+                t.left.id in opt and isinstance(t.comparators[0], ast.Constant) and t.comparators[0].value is None
+        vnames = vnames | opt
+        monitors = monitors | opt
         uses = [n for n in ast.walk(f.node) if isinstance(n, ast.Name) and n.id in vnames and isinstance(n.ctx, ast.Load)]
-        accounted = set()
+        accounted = set(pre_accounted)
         bad = []
         for n in ast.walk(f.node):
+            if isinstance(n, ast.Call) and isinstance(n.func, ast.Name) and n.func.id in opt and _inside_verbose_region(f.node, n.func, vnames):
+                accounted.add(id(n.func))
             if isinstance(n, ast.Assign) and isinstance(n.value, ast.Name) and n.value.id in vnames and \
                     all(isinstance(t, ast.Name) and t.id in vnames for t in n.targets):
                 accounted.add(id(n.value))
             if isinstance(n, ast.If) and any(_mentions(n.test, v) for v in vnames):
-                ok_test = _verbose_test(n.test)
+                ok_test = _verbose_test(n.test) if not any(_mentions(n.test, v) for v in opt) else _opt_test(n.test)
                 for u in ast.walk(n.test):
                     if isinstance(u, ast.Name) and u.id in vnames:
                         accounted.add(id(u))
+                        handed.add(id(u))
+                if not ok_test and any(_mentions(n.test, v) for v in opt):
+                    bad.append((n.lineno, 'UNCLEAR: the optional monitor is tested as %s' % ast.unparse(n.test)[:40]))
+                    continue
                 if not ok_test:
                     bad.append((n.lineno, 'verbose is combined in the test %s in a way that is not a pure guard' % ast.unparse(n.test)))
                     continue
@@ -1348,6 +1378,20 @@ def r_verb(ctx, floor_funcs=0):
                         if b:
                             bad.append((st.lineno, 'the else-arm of a verbose test: ' + b))
             elif isinstance(n, ast.Call):
+                # `monitor=M if verbose else None` handed to a dsw helper that treats the parameter as an optional progress monitor
+                q_, callee_ = ctx.resolve_call(f, n)
+                for pname_, a_ in [(k.arg, k.value) for k in n.keywords] + \
+                        [(callee_.positional[i_] if callee_ is not None and i_ < len(callee_.positional) else None, a_)
+                         for i_, a_ in enumerate(n.args)]:
+                    if isinstance(a_, ast.IfExp) and callee_ is not None and pname_ in callee_.params:
+                        t_, on_, off_ = a_.test, a_.body, a_.orelse
+                        if isinstance(t_, ast.UnaryOp) and isinstance(t_.op, ast.Not):
+                            t_, on_, off_ = t_.operand, a_.orelse, a_.body
+                        if isinstance(t_, ast.Name) and t_.id in vnames and isinstance(on_, ast.Name) and on_.id in monitors and \
+                                isinstance(off_, ast.Constant) and off_.value is None and _optional_monitor_param_ok(callee_, pname_):
+                            accounted.add(id(t_))
+                            handed.add(id(on_))
+                            npass += 1
                 for k in n.keywords:
                     if isinstance(k.value, ast.Name) and k.value.id in vnames:
                         q, callee = ctx.resolve_call(f, n)
@@ -1392,6 +1436,8 @@ def r_verb(ctx, floor_funcs=0):
         # monitor used outside regions
         for n in ast.walk(f.node):
             if isinstance(n, ast.Name) and n.id in monitors and isinstance(n.ctx, ast.Load):
+                if id(n) in handed:
+                    continue
                 if not _inside_verbose_region(f.node, n, vnames) and not _is_alias_binding(f.node, n, monitors):
                     called = any(isinstance(c_, ast.Call) and c_.func is n for c_ in ast.walk(f.node))
                     bad.append((n.lineno, ('' if called else 'UNCLEAR: ') + 'the Monitor instance is %s outside a verbose region'
@@ -1569,6 +1615,37 @@ def _is_monitor_ctor(f, d):
 
 def _mentions(e, name):
     return any(isinstance(n, ast.Name) and n.id == name for n in ast.walk(e))
+
+
+def _optional_monitor_param_ok(g, p):
+    """the callee g treats its parameter p as an optional progress monitor: every use of p is the test `p is not None` / `p is None`
+    / `p` of an if whose guarded arm contains nothing but calls of p and print with effect-free arguments, or such a call"""
+    fn = g.node
+    accounted, guards = set(), 0
+    for n in ast.walk(fn):
+        if not isinstance(n, ast.If):
+            continue
+        t, pos = n.test, None
+        if isinstance(t, ast.Compare) and len(t.ops) == 1 and isinstance(t.left, ast.Name) and t.left.id == p and \
+                isinstance(t.comparators[0], ast.Constant) and t.comparators[0].value is None and isinstance(t.ops[0], (ast.Is, ast.IsNot)):
+            pos = isinstance(t.ops[0], ast.IsNot)
+        elif isinstance(t, ast.Name) and t.id == p:
+            pos = True
+        if pos is None:
+            continue
+        arm, other = (n.body, n.orelse) if pos else (n.orelse, n.body)
+        if not arm or (other and not all(isinstance(s, ast.Pass) for s in other)):
+            return False
+        for st in arm:
+            if _region_violation(st, {p}, frozenset()):
+                return False
+        guards += 1
+        for u in ast.walk(n):
+            if isinstance(u, ast.Name) and u.id == p:
+                accounted.add(id(u))
+    uses = [u for u in ast.walk(fn) if isinstance(u, ast.Name) and u.id == p and isinstance(u.ctx, ast.Load)]
+    return guards > 0 and all(id(u) in accounted for u in uses) and \
+        not any(isinstance(u, ast.Name) and u.id == p and isinstance(u.ctx, (ast.Store, ast.Del)) for u in ast.walk(fn))
 
 
 def _verbose_test(t):
